@@ -52,6 +52,9 @@ def mk(rng, quick):
         if r < 0.6:
             rid += 1
             row = {"id": rid}
+            if rng.random() < 0.4:      # the stream row carries columns of its own that are named like the table's: they never stand in for m.loc / m.n
+                row["loc"] = "own%d" % rid
+                if rng.random() < 0.5: row["n"] = 77
             for c in scols_all:
                 v = rng.choice(pool[int(c[1]) - 1])
                 if rng.random() < 0.9: row[c] = v
@@ -60,6 +63,7 @@ def mk(rng, quick):
         elif r < 0.85:
             j = rng.choice(joins)
             row = {"loc": "U%d" % len(ops), "n": rng.choice([5, 10, 20])}
+            if rng.random() < 0.25: del row["loc"]          # a table row without the column: NULL under the alias
             for c, v in zip(j["_scols"], j["_keyt"]()): row[c] = v
             ops.append({"op": "upsert", "table": j["name"], "row": row})
         else:
